@@ -15,7 +15,11 @@ MANIFEST = dict(
          "/ union-of-declared-bits values: a declared value prints its name, a union of declared flags prints their names in ascending flag order "
          "joined by \", \", anything else prints in decimal. Tied to the code by generating bit-flag enums, running the rebuilt `shoot enum -bit`, and "
          "executing the methods for EVERY value in [0, 2^(k+1)) and every (value, flag) pair. The emitted file itself never compiles (it reads the "
-         "undefined `_<t>_map`): recorded finding; the methods are observed on a copy with the defined table name substituted.",
+         "undefined `_<t>_map`): recorded finding; the methods are observed on a copy with the defined table name substituted. String() reads the package-level "
+         "slice `_<t>_values` at call time: over the running program (Tables/step/run) after EVERY history of calls String() is the property's statement "
+         "(C14_history / C14_string_history, induction over the call list), and a value with a bit no constant declares prints in decimal for ANY table "
+         "(C14_string_undeclared_bit); the correspondence runs a generated call history (IsEnum with unions and foreign bits, the getters, the helpers, "
+         "Has/Add/Remove) between the sweeps and re-observes every getter and the whole sweep.",
     note="Lean kernel + standard axioms; observation requires the one-identifier substitution described above.",
     technique="Lean 4 proof (bit-vector extensionality, loop invariant) + exhaustive differential correspondence per generated enum",
     design="5/C14")
@@ -187,8 +191,11 @@ def run(ctx, obl):
                 "declared bits, with arbitrary overlapping values, and signed enums with a flag on the sign bit (negative values, `_max` negative); "
                 "bit-flag enums generated from the grammar (1-8 single-bit flags, contiguous `1 << iota` runs or scattered decimal/hex/shift "
                 "literals in any order, optional zero constant, 0-3 declared composites `A | B`, all 10 integer kinds, prefixed or plain names); "
-                "30%% of the runs carry the logging-only flag -v / -verbose (same expectation); between the String() sweeps the runtime helpers IsEnum / "
-                "ParseEnum / TryParseEnum are called on declared, undeclared and union values and Values() is observed again (vals2); "
+                "behaviour-neutral flags are a dimension of every run (-v / -verbose 35%%, -ver= / -version= 20%%, -sep / -separate 20%%, -bit or its alias -bitwise; "
+                "same expectation); between the String() sweeps the runtime helpers IsEnum / ParseEnum / TryParseEnum are called on declared, undeclared and "
+                "union values, then a generated CALL HISTORY runs (18+ calls in random order: IsEnum[T, TV] for random TV with declared values, unions of declared "
+                "flags and values with a foreign bit, ParseEnum / TryParseEnum, the four getters, String, IsValid, Has / Add / Remove, the codecs the flags add; "
+                "every result asserted, keys h<j>), then all four getters (values2 … smap2) and Values() (vals2) are observed again; "
                 "String() is evaluated as a CALL HISTORY - ascending sweep, the same sweep in descending call order (every union before 0 and the declared "
                 "values), through MarshalText / json.Marshal / Value when the flags add them, ascending again - and must be a function of the value; "
                 "in packages whose constants are spread over several files one constant-bearing file may carry another generator's `// Code generated … DO NOT "
